@@ -366,10 +366,12 @@ Fixpoint manifests_missing_from (i : nat) (rs roots : list root) (D : list dfile
           | Some es => negb (entries_same es (per_root roots D i r))
           | None => true
           end
-     else (* a root without desired files: a preferred-name manifest that still lists entries is stale *)
+     else (* a root without desired files: an existing preferred-name manifest that is unusable or
+             still lists entries is stale *)
           match f (mf_path r) with
-          | Some (FMan m) => match manifest_usable m (rtarget r) with Some (_ :: _) => true | _ => false end
-          | _ => false
+          | Some (FMan m) => match manifest_usable m (rtarget r) with Some [] => false | _ => true end
+          | Some (FBytes _) => true
+          | None => false
           end)
     || manifests_missing_from (S i) rest roots D f
   end.
